@@ -22,7 +22,7 @@ RELATION = 'substring-algebra'
 RULE = ('one workbook per generated text with up to ~25 formulas over it; non-trivial = the count or position is on a boundary '
         '(0, length, length +- 1), or the text is empty, or contains a wildcard / regex-special character, or differs in case '
         'from the needle; distinct = distinct (text, supply route, formula)')
-ASSUMPTIONS = ['SEARCH start positions are asserted for 1 <= s <= length only; empty needles are not generated',
+ASSUMPTIONS = ['SEARCH start positions are asserted for 1 <= s <= length only; an empty needle only with an explicit start position',
                'text forms: ints, decimals with <= 3 fractional digits, quotients a/b as 15 significant digits, booleans as TRUE / FALSE',
                'LEFT of a number, fractional counts, VALUE of dates/times/percent/thousands separators are not asserted']
 
@@ -153,6 +153,10 @@ def build(spec):
                     # a quotient a/b in brackets: its text form has 15 significant digits and no trailing ".0"
                     texts.append('%.15g' % (p[0] / p[1]))
                     forms.append(f'({p[0]}/{p[1]})')
+                elif isinstance(p, str) and p.startswith('$') and len(p) > 1 and p != '$T':
+                    # a number literal written with a superfluous fraction or an exponent: its text form is that of the number
+                    texts.append('%.15g' % float(p[1:]))
+                    forms.append(p[1:])
                 elif isinstance(p, str):
                     texts.append(p)
                     forms.append(lit(p))
@@ -171,6 +175,10 @@ def build(spec):
             qs.append(Q(f, exp, fn, True, base_tags + [f'parts:{len(parts)}'], meta={'triggers': trig}))
         elif fn == 'SEARCH':
             f_, s, nvia = q['f'], q.get('s'), q.get('nvia', 'lit')
+            if f_ == '' and L > 0 and s is not None and 1 <= s <= L:
+                # the empty text occurs everywhere: at or after s it is found at s
+                qs.append(Q(f'=SEARCH("",{T},{s})', s, 'SEARCH:empty-needle', True, base_tags + ['needle:empty'], meta={'triggers': list(trig)}))
+                continue
             if f_ == '' or L == 0:
                 continue
             if s is not None and not 1 <= s <= L:
@@ -241,7 +249,8 @@ def strategy():
             elif fn in ('AMP', 'CONCATENATE'):
                 part = st.one_of(st.just('$T'), st.sampled_from(['x', 'Yz', ' ', 'é']), st.integers(-9, 120),
                                  st.sampled_from([1.5, 0.25, 12.125, 3.7]), st.booleans(), st.sampled_from([1, 0]),
-                                 st.sampled_from([[3, 3], [1, 2], [0, 5], [1, 3], [2, 3], [10, 4], [7, 7]]))
+                                 st.sampled_from([[3, 3], [1, 2], [0, 5], [1, 3], [2, 3], [10, 4], [7, 7]]),
+                                 st.sampled_from(['$2.0', '$10.00', '$1e3', '$2.50', '$0.10', '$12.0']))
                 qs.append({'fn': fn, 'parts': draw(st.lists(part, min_size=1, max_size=4))})
             else:
                 # needles: substrings of t (possibly case-flipped / with wildcards put in), or fresh
@@ -263,7 +272,7 @@ def strategy():
                         sub = ''.join('~' + ch if ch in '?*~' else ch for ch in sub)
                     f_ = sub
                 else:
-                    f_ = draw(st.lists(st.sampled_from(ALPHABET), min_size=1, max_size=3).map(''.join))
+                    f_ = draw(st.lists(st.sampled_from(ALPHABET), min_size=0, max_size=3).map(''.join))
                 qs.append({'fn': 'SEARCH', 'f': f_, 's': draw(st.one_of(st.none(), st.integers(1, max(1, L)))),
                            'nvia': draw(st.sampled_from(['lit', 'cell', 'cell']))})
         values = []
